@@ -214,6 +214,9 @@ func VerifMapStream(L int, par int, buf int, fault int) {
 		vAssert(ended, "C14:mapstream/finishes")
 	}
 	out.Close()
+	atReturn := 0
+	vAtomic(func() { atReturn = src.closes })
+	vAssert(atReturn == 1, "C09:mapstream/source-closed-by-the-time-close-returns")
 	vAssert(!src.over, "C14:mapstream/read-ahead-bounded-by-buffer-plus-parallelism-plus-one")
 	vQuiesce()
 	vAssert(vBlockedCount() == 0, "C14:mapstream/close-returns-after-workers-stopped")
